@@ -1145,11 +1145,13 @@ pub mod implementations {
             bail!("store_skip can only store a single item");
         }
 
-        let arg = ctx.get_last_op_item().unwrap();
+        // the operand may be a pointer produced by an index or field lookup.
+        let arg = ctx.get_last_op_item().unwrap().move_out_of_heap_primitive_borrow()?;
 
-        let Primitive::Bool(val) = arg else {
+        let Primitive::Bool(val) = arg.as_ref() else {
             bail!("store_skip can only operate on bool (found {arg})");
         };
+        let val = &*val;
 
         if predicate == 1 {
             // skip if true
